@@ -1,5 +1,5 @@
 From Coq Require Import Extraction ExtrOcamlBasic NArith.
 From SF Require Import Base.Outcome Base.Bytes Base.GeomAST Model.WKB Model.Build Model.CType.
 Extraction Language OCaml.
-Extraction "model.ml" apply_n spec_n consistent_n xyfam_fun enc dec wf_wkb build is_empty geom_vs geom_seqs
+Extraction "model.ml" new_point_n apply_n spec_n consistent_n xyfam_fun enc dec wf_wkb build is_empty geom_vs geom_seqs
   geom_ct geom_type N.add N.mul N.of_nat N.to_nat.
